@@ -51,8 +51,16 @@ Apply(s, r) ==
                             THEN "full_set_lost_on_reexecution" ELSE @]
     [] r.e = "step_end" /\ r.failed -> [s0 EXCEPT !.failed = @ \cup {<<r.step, r.uid>>}]
     [] r.e = "drained" /\ r.live_run /\ r.open = 0 ->
-         [s0 EXCEPT !.bad = IF \E x \in DOMAIN Tr.collect :
-                                  Cardinality({y \in s0.lists : y[1] = x}) < Expectable(s0, x)
+         \* (a) a complete set sits in the buffer and nobody was given it;
+         \* (b) when every expected type arrived exactly as often as ONE set needs it, nothing can be surplus (an event whose
+         \*     type's slots are already filled is ignored by collect_events -- that is its sequential meaning, with one
+         \*     worker too), so that one set must have been returned
+         [s0 EXCEPT !.bad = IF \E i \in 1..Len(r.left) : r.left[i][1] \in DOMAIN Tr.collect /\
+                                  \A t \in Set(Tr.collect[r.left[i][1]]) : CountT(t, r.left[i][3]) >= CountT(t, Tr.collect[r.left[i][1]])
+                            THEN "full_set_left_in_buffer"
+                            ELSE IF \E x \in DOMAIN Tr.collect :
+                                  /\ \A t \in Set(Tr.collect[x]) : Cardinality({y \in s0.recv[x] : y[2] = t}) = CountT(t, Tr.collect[x])
+                                  /\ Cardinality({y \in s0.lists : y[1] = x}) < 1
                             THEN "full_set_never_returned" ELSE @]
     [] OTHER -> s0
 
